@@ -24,7 +24,7 @@ LEAN_NAMESPACES = ['MpycV.C03']
 REQUIRED_THEOREMS = ['inv_ofInt', 'inv_ofFloat', 'inv_ofBit', 'inv_neg', 'inv_add', 'inv_sub', 'inv_mulSS', 'inv_mulInt',
                      'inv_mulFloat', 'inv_lshift', 'inv_sum', 'inv_inProd', 'inv_ifElse', 'inv_ifSwap', 'inv_vectorAdd',
                      'inv_vectorSub', 'inv_scalarMul', 'inv_schurProd', 'inv_ifElseList', 'inv_ifSwapList',
-                     'inv_matrixProd', 'inv_prodLevel', 'inv_allLevel', 'shortcut_exact', 'shortcut_exact_fits',
+                     'inv_matrixProd', 'inv_prodLevel', 'inv_prod', 'inv_allLevel', 'shortcut_exact', 'shortcut_exact_fits',
                      'flag_independent_mul', 'first_element_rule_unsound']
 RULE = ('case = (party configuration (m,t,PRSS), type (l,f) in {(8,4),(16,8),(32,16),(64,32),(24,6)}, random straight-line '
         'program of depth <= 4 (thorough 6) over inputs {ints, integer-valued floats, +-2^-f, half-way floats, extremes, '
@@ -127,7 +127,7 @@ def handle(ctx, r, lf, prog):
                     'opened': [rec.get('out') for rec in recs[:8]]})
     viol = L.check_program(prog, res, lf, res_ff, want=('flags', 'forced'))
     for kind, msg, det in viol:
-        if kind in ('div-small', 'div-wide'):
+        if kind in ('div-small', 'div-wide', 'sincos-large'):
             continue
         rep = {'kind': 'program', 'cfg': r['cfg'], 'lf': r['lf'], 'prog': prog, 'seed': ctx.seed, 'check': kind,
                'detail': det, 'observed': [rec.get('out', rec.get('error')) for rec in recs]}
@@ -158,7 +158,7 @@ def replay(ctx, data):
     res = L.run_real(cfg, lf, prog, seed=data.get('seed', 0))
     res_ff = L.run_real(cfg, lf, prog, seed=data.get('seed', 0) + 1, force_false=True)
     viol = [v for v in L.check_program(prog, res, lf, res_ff, want=('flags', 'forced', 'bounds'))
-            if v[0] not in ('div-small', 'div-wide')]
+            if v[0] not in ('div-small', 'div-wide', 'sincos-large')]
     if viol:
         return False, viol[0][1]
     return True, 'ok: no value marked integral is fractional; results independent of the flags'
